@@ -26,6 +26,21 @@ def run(ctx):
     scen = c12.gen(ctx)
     thorough = ctx.tier == "thorough"
     scen = scen[: (1200 if thorough else 260)]
+    # matrix keys: strobe all columns first (MV (F0),FF ; MV (F1),07), then press / release keys at random steps
+    keyed = []
+    for c in scen:
+        imr0, ten, mti, sti, main, handler, nsteps, ev = c
+        if rng.random() < 0.45:
+            evs = [] if ev == "-" else ev.split(",")
+            for _ in range(rng.randint(1, 3)):
+                key = rng.choice(["KEY_W", "KEY_R", "KEY_Y", "KEY_I", "KEY_P", "KEY_A", "KEY_Q"])
+                k1 = rng.randrange(nsteps)
+                evs.append(f"{k1}:key{key}")
+                if rng.random() < 0.6:
+                    evs.append(f"{rng.randrange(k1, nsteps)}:rel{key}")
+            c = (imr0, ten, mti, sti, ("ccf0ffccf107" + main) if rng.random() < 0.8 else main, handler, nsteps, ",".join(evs))
+        keyed.append(c)
+    scen = keyed
     lines, meta = [], []
     for c in scen:
         imr0, ten, mti, sti, main, handler, nsteps, ev = c
@@ -53,13 +68,17 @@ def run(ctx):
                 ctx.nontrivial.add(core + l)
             cx = {"case": "snap " + l, "core": core, "at": at, "restored": re_}
             if at != re_:
-                fields = ["pc", "ba", "i", "s", "f", "imr", "isr", "in_interrupt", "irq_total", "low_power"]
+                fields = ["pc", "ba", "i", "s", "f", "imr", "isr", "in_interrupt", "irq_total", "low_power", "kil", "key_fifo"]
                 diff = [n for n, x, y in zip(fields, at.split(","), re_.split(",")) if x != y]
                 ctx.report([core, "restored_state_differs", "+".join(diff)], f"snapshot at step {k}: restored state differs in {diff}", cx)
             elif ta != tb:
                 sa, sb = ta.split(";"), tb.split(";")
                 j = next((i for i in range(min(len(sa), len(sb))) if sa[i] != sb[i]), min(len(sa), len(sb)))
-                ctx.report([core, "future_differs_after_identical_visible_state"], f"snapshot at step {k}: continuation differs from step +{j + 1}: original {sa[j] if j < len(sa) else None} restored {sb[j] if j < len(sb) else None}", cx)
+                fl = ["pc", "ba", "i", "s", "f", "imr", "isr", "in_interrupt", "irq_total", "low_power", "kil", "key_fifo"]
+                first = [n for n, x, y in zip(fl, sa[j].split(","), sb[j].split(",")) if x != y] if j < len(sa) and j < len(sb) else ["length"]
+                keys = any(t.split(":")[1].startswith(("key", "rel")) for t in l.split(" ")[8].split(",") if ":" in t)
+                ctx.report([core, "future_differs_after_identical_visible_state", "+".join(first), "matrix_keys" if keys else "no_matrix_keys"],
+                           f"snapshot at step {k}: continuation differs from step +{j + 1} in {first}: original {sa[j] if j < len(sa) else None} restored {sb[j] if j < len(sb) else None}", cx)
             elif parts["DA"] != parts["DB"]:
                 cells = sorted({t.split(":")[0] for t in parts.get("DIFF", "-").split(",") if ":" in t}) or ["unknown"]
                 where = cells[0] if all(c.startswith("imem") for c in cells) and len(cells) == 1 else ("ram" if not any(c.startswith("imem") for c in cells) else "several")
@@ -67,7 +86,7 @@ def run(ctx):
     # cross loading: a bundle written by one implementation is loaded by the other, which must then show the saver's state
     if okr:
         sub = list(zip(lines, meta))[:: (3 if thorough else 6)]
-        fields = ["pc", "ba", "i", "s", "f", "imr", "isr", "in_interrupt", "irq_total", "low_power"]
+        fields = ["pc", "ba", "i", "s", "f", "imr", "isr", "in_interrupt", "irq_total", "low_power", "kil", "key_fifo"]
         for saver, loader in (("rs", "py"), ("py", "rs")):
             sl, ll = [], []
             for n, (l, (c, k)) in enumerate(sub):
@@ -89,8 +108,11 @@ def run(ctx):
                 ctx.traces += 1
                 ctx.count(f"cross:{saver}_to_{loader}")
                 diff = [n for n, x, y in zip(fields, a[6:].split(","), b[7:].split(",")) if x != y]
-                if diff:
-                    ctx.report([f"{saver}_to_{loader}", "state_differs_after_cross_load", "+".join(diff)], f"{loader} shows a different state after loading the {saver} bundle: {diff}", cx)
+                fams = set()
+                for n in diff:
+                    fams.add("low_power" if n == "low_power" else ("keyboard_state" if n in ("kil", "key_fifo") else n))
+                for fam in sorted(fams):
+                    ctx.report([f"{saver}_to_{loader}", "state_differs_after_cross_load", fam], f"{loader} shows a different state after loading the {saver} bundle: {diff}", cx)
         for f in tmp.glob("x-*.pcsnap"):
             f.unlink()
     ctx.samples = [{"case": lines[0], "python": outs["py"][0][:300]}]
